@@ -12,3 +12,5 @@ import DSymVerif.Props.C11
 #print axioms DSymVerif.C11.compact_valid
 #print axioms DSymVerif.C11.coset_table_valid_partial
 #print axioms DSymVerif.C11.rows_multiple
+#print axioms DSymVerif.C11.coset_table_correct
+#print axioms DSymVerif.C11.coset_table_representatives
